@@ -15,7 +15,12 @@ func (e *Engine) uf(name string, args []*Term, res Sort) *Term {
 		sorts[i] = a.Sort
 	}
 	e.S.DeclareFun(name, sorts, res)
-	return &Term{Op: "uf:" + name, Args: args, Sort: res}
+	t := &Term{Op: "uf:" + name, Args: args, Sort: res}
+	if old, ok := e.ufApps[t.String()]; ok {
+		return old
+	}
+	e.ufApps[t.String()] = t
+	return t
 }
 
 func (e *Engine) errorValue(tag string) Value {
